@@ -142,6 +142,18 @@ func destination(k kase, src sq) sq {
 	return empty(k)
 }
 
+// meta renders what a sequence holds besides its letters (name, strand, conformation, offset, alphabet):
+// "the source is unchanged" covers that too.
+func meta(s sq) string {
+	switch t := s.(type) {
+	case *linear.Seq:
+		return fmt.Sprint(t.ID, "|", t.Desc, "|", t.Strand, "|", t.Conform, "|", t.Offset, "|", t.Alpha == nil, "|", len(t.Seq))
+	case *linear.QSeq:
+		return fmt.Sprint(t.ID, "|", t.Desc, "|", t.Strand, "|", t.Conform, "|", t.Offset, "|", t.Alpha == nil, "|", len(t.Seq), "|", t.Encode)
+	}
+	return ""
+}
+
 func read(s sq) []alphabet.QLetter {
 	out := make([]alphabet.QLetter, 0, s.Len())
 	for i := s.Start(); i < s.End(); i++ {
@@ -227,6 +239,7 @@ func check(c *enum.Ctx, k kase) {
 	case "truncate":
 		src := mk(k, k.L, k.Off, k.Circ, 0)
 		orig := read(src)
+		meta0 := meta(src)
 		dst := src
 		if !k.Same {
 			dst = destination(k, src)
@@ -268,6 +281,9 @@ func check(c *enum.Ctx, k kase) {
 		if !k.Same {
 			if str(read(src), wq) != str(orig, wq) || src.Start() != k.Off {
 				fail("src-changed", "source changed to %q at %d", str(read(src), wq), src.Start())
+			}
+			if k.Used < 3 && meta(src) != meta0 {
+				fail("src-changed/annotation", "the source's name|description|strand|conformation|offset|... changed from %s to %s", meta0, meta(src))
 			}
 			scribble(dst)
 			if str(read(src), wq) != str(orig, wq) {
@@ -313,6 +329,7 @@ func check(c *enum.Ctx, k kase) {
 	case "stitch", "compose":
 		src := mk(k, k.L, k.Off, k.Circ, 0)
 		orig := read(src)
+		meta0 := meta(src)
 		dst := src
 		if !k.Same {
 			dst = destination(k, src)
@@ -380,6 +397,9 @@ func check(c *enum.Ctx, k kase) {
 		if !k.Same {
 			if str(read(src), wq) != str(orig, wq) || src.Start() != k.Off {
 				fail("src-changed", "source changed to %q at %d", str(read(src), wq), src.Start())
+			}
+			if k.Used < 3 && meta(src) != meta0 {
+				fail("src-changed/annotation", "the source's name|description|strand|conformation|offset|... changed from %s to %s", meta0, meta(src))
 			}
 			scribble(dst)
 			if str(read(src), wq) != str(orig, wq) {
